@@ -8,6 +8,7 @@ import (
 	"path/filepath"
 	"sort"
 	"strings"
+	"time"
 
 	"verif/sim/internal/eng"
 	"verif/sim/internal/sched"
@@ -240,6 +241,12 @@ func (Engine) Run(t *tape.Tape, o eng.Opts) *eng.Result {
 		opts.FS = world.FaultFS{Inner: http.FS(d.mapfs)}
 	}
 	w := world.Build(setup, all, opts)
+	// a quarter of the runs are open workloads: requests arrive on the virtual clock, so the
+	// number in flight rises and falls and idle periods pass between requests (see conc)
+	if sw.Intn(4) == 1 {
+		world.GenArrivals(t.Stream("arrival"), reqs)
+	}
+	sched.SetTick([]time.Duration{time.Millisecond, 100 * time.Microsecond, 10 * time.Millisecond, 100 * time.Millisecond}[sw.Intn(4)])
 	sr := w.RunTasks(reqs, cfg, res)
 	res.Requests = len(all)
 	res.Cases = len(all)
